@@ -995,6 +995,7 @@ static Polygons Star(vh::Rng& r, int n, double rad, bool hole) {
   return p;
 }
 
+static int g_detail = 1;  // stage parameter `detail`: multiplies segment / point counts
 // eps-valid by construction, canonical pose, size O(1)
 static Manifold Primitive(vh::Rng& r, std::string& how, std::string& kind) {
   int k = r.range(0, 9);
@@ -1008,20 +1009,20 @@ static Manifold Primitive(vh::Rng& r, std::string& how, std::string& kind) {
     case 2: kind = "Tet"; how = "Tetrahedron()"; return Manifold::Tetrahedron();
     case 3: case 4: {
       double rad = r.uni(0.4, 1.3);
-      int seg = 4 * r.range(1, 5);
+      int seg = 4 * r.range(1, 5 * g_detail);
       kind = "Sphere";
       how = "Sphere(" + f17(rad) + "," + std::to_string(seg) + ")";
       return Manifold::Sphere(rad, seg);
     }
     case 5: {
       double h = r.uni(0.5, 2), r1 = r.uni(0.3, 1.2), r2 = r.chance(0.3) ? -1.0 : (r.chance(0.25) ? 0.0 : r.uni(0.3, 1.2));
-      int seg = r.range(3, 16);
+      int seg = r.range(3, 16 * g_detail);
       kind = "Cylinder";
       how = "Cylinder(" + f17(h) + "," + f17(r1) + "," + f17(r2) + "," + std::to_string(seg) + ",center)";
       return Manifold::Cylinder(h, r1, r2, seg, true);
     }
     case 6: {
-      int n = r.range(6, 30);
+      int n = r.range(6, 30 * g_detail);
       std::vector<vec3> pts(n);
       for (auto& p : pts) p = vec3(r.uni(-1, 1), r.uni(-1, 1), r.uni(-1, 1));
       kind = "Hull";
@@ -1051,7 +1052,7 @@ static Manifold Primitive(vh::Rng& r, std::string& how, std::string& kind) {
       Polygons p = Star(r, n, rad, false);
       double off = rad * r.uni(1.7, 3.0);  // max radius 1.4 rad => x > 0.3 rad
       for (auto& q : p[0]) q.x += off;
-      int seg = r.range(3, 12);
+      int seg = r.range(3, 12 * g_detail);
       double deg = r.chance(0.5) ? 360.0 : r.uni(30, 330);
       kind = "Revolve";
       std::string s = "Revolve({[";
@@ -1265,6 +1266,7 @@ static std::string OpndJson(const std::vector<Opnd*>& os) {
 
 static void Case(vh::Ctx& c) {
   vh::Rng& r = c.rng;
+  g_detail = std::max(1, (int)c.iparam("detail", 1));
   const int nShared = (int)c.iparam("sharedTris", 14), nOwn = (int)c.iparam("ownTris", 14), strata = (int)c.iparam("strata", 4);
   // ---- a generic pair
   Opnd A = MakeOperand(r), B = MakeOperand(r);
